@@ -62,8 +62,8 @@ impl Scenario for Handshake {
 
     fn budget(&self, tier: Tier) -> u64 {
         match tier {
-            Tier::Quick => 3_000,
-            Tier::Thorough => 200_000,
+            Tier::Quick => 30_000,
+            Tier::Thorough => 2_000_000,
         }
     }
 
@@ -539,8 +539,8 @@ impl Scenario for ClientHello {
 
     fn budget(&self, tier: Tier) -> u64 {
         match tier {
-            Tier::Quick => 20_000,
-            Tier::Thorough => 1_500_000,
+            Tier::Quick => 200_000,
+            Tier::Thorough => 20_000_000,
         }
     }
 
